@@ -138,3 +138,52 @@ func HarnessC07_ChunkStep() {
 	vAssert(true, "chunk step returned")
 	vReach("c07-chunkstep")
 }
+
+// HarnessC07_RtmpLinear: the chunk reader's work grows no faster than linearly with the stream
+// length: one message of n, 2n, 4n chunks (chunk size 1..2) or n, 2n, 4n single-chunk messages
+// on one chunk stream with fmt 0/1/2/3 headers.
+func HarnessC07_RtmpLinear() {
+	shape := vChoice(3)
+	cs := 1 + vChoice(2)
+	cost := func(n int) int {
+		s := &refSender{chunkSize: 128}
+		ctl := &refCS{csid: 2, form: 1}
+		c := &refCS{csid: 5, form: 1}
+		switch shape {
+		case 0: // one long message in many chunks
+			s.setChunkSize(ctl, uint32(cs))
+			pl := vPattern(n*cs, 7)
+			s.first(c, 0, 1000, len(pl), 9, 1, pl)
+			for c.cur != nil {
+				s.cont(c)
+			}
+		case 1: // many small messages, compressed headers
+			for i := 0; i < n; i++ {
+				f := uint8(0)
+				if i > 0 {
+					f = uint8(1 + i%3)
+				}
+				s.first(c, f, 40, 3, 9, 1, []byte{1, 2, 3})
+			}
+		default: // many messages on many chunk streams (the reader keeps one state per stream)
+			for i := 0; i < n; i++ {
+				ci := &refCS{csid: uint32(64 + i%60000), form: 3}
+				s.first(ci, 0, uint32(i), 2, 8, 1, []byte{1, 2})
+			}
+		}
+		count := len(s.done)
+		return vMeasure(func() {
+			p := NewProtocol(newDuplexWith(s.out))
+			got := 0
+			for {
+				if _, err := p.ReadMessage(); err != nil {
+					break
+				}
+				got++
+			}
+			vAssert(got == count, "every message of the well-formed stream is read")
+		})
+	}
+	vLinear(cost, 32, 256, 8192, "chunk reading cost grows no faster than linearly with the stream length")
+	vReach("c07-rtmp-linear")
+}
